@@ -21,6 +21,11 @@ Static clauses decided (necessary conditions of C24):
           function of SQLTranslator that adds terms to an existing ORDER BY list (order_by_numbers, order_by_attributes, the
           lambda/string path in apply_lambda -- siblings) PREPENDS them (`order[:0] = new_terms`); appending makes the later call the
           least significant key.  The list is copied before it is changed (the translator is shared through the cache).
+ PERMUTE  "ordering a query only permutes its unordered result": tables joined only because an ORDER BY expression walks a relationship
+          (order_by(lambda s: s.group.name)) must be OUTER-joined, otherwise the rows whose reference is NULL disappear from the
+          ordered query.  Pony joins lazily (JoinedTableRef.make_join / SqlQuery.join_table) and the order path announces itself
+          with translator.inside_order_by: the clause holds only if the join machinery consults that flag (or the order path
+          switches the query to LEFT_JOIN itself).
 """
 NOT_DECIDED = "the arithmetic of nested limit/offset combination beyond sign; aggregates; random()"
 
@@ -171,6 +176,20 @@ def run(ctx):
     ok = bool(z) and any(x.kind == 'stmt' and norm(x.ast) == 'offset = None' and x.id in g.reach([y for y, lab in g.succ[z[0].id] if lab == 'T']) for x in g.nodes)
     ctx.ob('C24-RANGE.zero-limit-drops-offset', cl, z[0].stmt if z else cl.node, ok, '' if ok else 'limit 0 keeps an offset')
 
+    # ---------------------------------------------------------------- PERMUTE
+    al = repo.fn(ST, 'SQLTranslator.apply_lambda')
+    sets = [st for st in walk_no_nested(al.node) if isinstance(st, ast.Assign) and any(dotted(t) == al.recv + '.inside_order_by' for t in st.targets)
+            and isinstance(st.value, ast.Constant) and st.value.value is True]
+    ctx.need(bool(sets), 'C24-PERMUTE: the order path of apply_lambda no longer sets inside_order_by')
+    joiners = [f for f in repo.rule_funcs() if f.mod.name == ST and any(isinstance(c.func, ast.Attribute) and c.func.attr in ('join_table', 'make_join') for c in calls_in(f.node))
+               or (f.mod.name == ST and f.name in ('join_table', 'make_join'))]
+    readers = [f for f in joiners if any(isinstance(a, ast.Attribute) and a.attr == 'inside_order_by' and isinstance(a.ctx, ast.Load) for a in ast.walk(f.node))]
+    switches = [st for st in walk_no_nested(al.node) if isinstance(st, ast.Assign) and ('LEFT_JOIN' in norm(st.value) or any((dotted(t) or '').endswith('left_join') for t in st.targets))]
+    ok = bool(readers) or bool(switches)
+    ctx.count('C24-PERMUTE: functions that create joins', len(joiners))
+    ctx.ob('C24-PERMUTE.order-by-joins-are-outer-joins', al, sets[0], ok,
+           '' if ok else 'none of the %d functions that create joins consults translator.inside_order_by and the order path does not switch to LEFT_JOIN: a table joined only '
+           'for an ORDER BY expression is inner-joined, and rows whose reference is NULL vanish from the ordered query' % len(joiners), node=sets[0])
     # ---------------------------------------------------------------- CHAIN
     nch = 0
     tr = repo.cls('pony.orm.sqltranslation', 'SQLTranslator')
